@@ -141,7 +141,7 @@ def worker(ctx):
         try:
             src = os.path.join(top, "src")
             os.makedirs(src)
-            paths = write_schema(root, src, rng=rng, semi=0.3, comments=0.2)
+            paths = write_schema(root, src, rng=rng, semi=0.3, comments=0.2, typedef=0.0)
             wit["schema"] = pycommon.describe(root, paths)
             main = paths[root.basename]
             base = root.basename
